@@ -770,7 +770,9 @@ func c06Run(ctx *vc.Ctx, rep *vc.Report) {
 	}
 	for _, f := range fams {
 		if ctx.Expired() || rep.TooMany() {
-			rep.Truncated = rep.Truncated || ctx.Expired()
+			if ctx.Expired() {
+				rep.Count("unbounded_pass_cut_short_by_time_cap", 1)
+			}
 			return
 		}
 		f := f
